@@ -187,14 +187,17 @@ class FolderProjectIo(ProjectIoInterface):
 
         for label, dataset in result.data.items():
             data_path = result_folder / f"{label}.{saving_options.data_format}"
+            saved_dataset = dataset
             if saving_options.data_filter is not None:
-                dataset = dataset[saving_options.data_filter]
+                saved_dataset = dataset[saving_options.data_filter]
             save_dataset(
-                dataset,
+                saved_dataset,
                 data_path,
                 format_name=saving_options.data_format,
                 allow_overwrite=True,
             )
+            # The filtered dataset is a new object, the file needs to be known to the result data.
+            dataset.attrs["source_path"] = saved_dataset.attrs["source_path"]
             paths.append(data_path.as_posix())
 
         return paths
